@@ -21,6 +21,10 @@ ASSUME = [
     "concurrent bulks: the model's atomic step is the writer's locked unit (docs block, then its meta block); "
     "concurrent acknowledged bulks are consecutive bulk steps in lock order (theorem C01_locked_units_sequential); "
     "crashes in the middle of a concurrent group are not generated",
+    "I/O faults: the theorems assume fault_free histories (no write fails with EFBIG/ENOSPC/EIO); histories WITH a "
+    "failed write are executed by the same model (HFault mirrors the current FileWriter/ActiveWriter: offset stays "
+    "advanced, partial bytes stay) and refute durability (Examples C01_fault_refuted_docs_write/_meta_write) - a "
+    "genuine defect of the current code, reported under fingerprint fault-ingest",
     "store = FracManager level (fracmanager.Load / Append / Searcher / Fetcher) in a child process; GrpcV1.Bulk not driven",
 ]
 RULE = ("witness family [start; bulk; crash inside next bulk at operation k torn at t; start; bulk (new or retry); start ...] "
@@ -30,7 +34,10 @@ RULE = ("witness family [start; bulk; crash inside next bulk at operation k torn
         "document is fetched and every token searched; concurrent stream: 2-3 bulks of very different size handed "
         "concurrently to the real store (traced: ~8-20 documents vs 1, compared with the model in lock order; "
         "untraced big trials: 600-2500 (thorough 6000) documents of 200-1500 bytes vs 1 short document, checked "
-        "directly), then power loss or kill, start, fetch of every acknowledged document; on every real .meta file "
+        "directly), then power loss or kill, start, fetch of every acknowledged document; fault stream: one Append attempt under RLIMIT_FSIZE so that the docs or the meta "
+        "write fails after cut bytes (0, 1, 32, 33, 34, len-1, random) with a real EFBIG; class fault-restart: observe, "
+        "kill, start (must be: not acknowledged, acked bulks intact, failed bulk all-or-nothing); class fault-ingest: "
+        "further acknowledged bulks (or the retry) before the start; on every real .meta file "
         "each block's Ext2 must equal the sum of the preceding Ext1 (ext_chain_ok). non-trivial = a crash, then an acknowledged bulk, then a start; "
         "distinct by history")
 
